@@ -51,8 +51,47 @@ structure Rep (geoOf : Nat → List (Pt α)) (g : Network α) (net : Net α) : P
   opt : g.minimizeOption = optNum net.opt
   speed : g.maximumSpeed = net.maxSpeed
   scale : g.heuristicScale = net.hscale
+  /-- the keys of every inner map `neighbors[u]` are distinct (a Go map holds one entry per key) -/
+  nbNodup : ∀ u, ((mapGetD g.neighbors u []).map Prod.fst).Nodup
 
 /-! ### association lists -/
+
+theorem mem_keys_mapSet {β : Type} (m : Map Nat β) (k : Nat) (v : β) (x : Nat) (h : x ∈ (mapSet m k v).map Prod.fst) :
+    x = k ∨ x ∈ m.map Prod.fst := by
+  induction m with
+  | nil => simp [mapSet] at h; exact Or.inl h
+  | cons a r ih =>
+    obtain ⟨ka, va⟩ := a
+    simp only [mapSet] at h
+    by_cases hk : k = ka
+    · simp only [if_pos hk, List.map_cons, List.mem_cons] at h
+      rcases h with h | h
+      · exact Or.inl h
+      · exact Or.inr (by simp [h])
+    · simp only [if_neg hk, List.map_cons, List.mem_cons] at h
+      rcases h with h | h
+      · exact Or.inr (by simp [h])
+      · rcases ih h with h | h
+        · exact Or.inl h
+        · exact Or.inr (by simp [h])
+
+/-- `m[k] = v` keeps the keys of an association list distinct -/
+theorem mapSet_keys_nodup {β : Type} (m : Map Nat β) (k : Nat) (v : β) (h : (m.map Prod.fst).Nodup) :
+    ((mapSet m k v).map Prod.fst).Nodup := by
+  induction m with
+  | nil => simp [mapSet]
+  | cons a r ih =>
+    obtain ⟨ka, va⟩ := a
+    simp only [List.map_cons, List.nodup_cons] at h
+    simp only [mapSet]
+    by_cases hk : k = ka
+    · simp only [if_pos hk, List.map_cons, List.nodup_cons]
+      subst hk; exact h
+    · simp only [if_neg hk, List.map_cons, List.nodup_cons]
+      refine ⟨fun hm => ?_, ih h.2⟩
+      rcases mem_keys_mapSet r k v ka hm with e | e
+      · exact hk e.symm
+      · exact h.1 e
 
 theorem lookup_append_single {β : Type} (m : Map Nat β) (k k' : Nat) (v : β) :
     lookup k' (m ++ [(k, v)]) = match lookup k' m with | some x => some x | none => if k' = k then some v else none := by
@@ -146,6 +185,7 @@ theorem rep_bump {g : Network α} {net : Net α} (hR : Rep geoOf g net) :
   · exact hR.opt
   · exact hR.speed
   · exact hR.scale
+  · exact hR.nbNodup
 
 theorem tie_newNodeID (C : Ctx α) (g : Network α) (net : Net α) (hR : Rep geoOf g net) (hmax : net.maxID ≠ Go.maxInt) :
     network_newNodeID C g = .ok (net.maxID + 1, { g with maxID := g.maxID + 1 }) := by
@@ -243,6 +283,16 @@ theorem tie_addNode (C : Ctx α) (g : Network α) (net : Net α) (hR : Rep geoOf
   · exact hR.opt
   · exact hR.speed
   · exact hR.scale
+  · intro u
+    have e : mapGetD (mapSet g.neighbors m.id []) u [] = mapGetD g.neighbors u [] := by
+      unfold mapGetD mapGet?
+      rw [lookup_mapSet]
+      by_cases hu : u = m.id
+      · subst hu; simp [hk]
+      · simp [hu]
+    show ((mapGetD (mapSet g.neighbors m.id []) u []).map Prod.fst).Nodup
+    rw [e]
+    exact hR.nbNodup u
 
 /-- `if !net.Has(n.ID()) { net.addNode(n) }` is the model's `addNode` -/
 theorem tie_ensureNode (C : Ctx α) (g : Network α) (net : Net α) (hR : Rep geoOf g net) (m : MNode α) :
@@ -275,12 +325,26 @@ theorem hasNode_addNode_mono (net : Net α) (m : MNode α) (u : Nat) (h : hasNod
 
 theorem mapSet2_spec {β : Type} (m : Map Nat (Map Nat β)) (k1 k2 : Nat) (v : β) (h : (lookup k1 m).isSome = true) :
     ∃ m', mapSet2 m k1 k2 v = .ok m' ∧ (∀ u, (lookup u m').isSome = (lookup u m).isSome) ∧
-      ∀ u w, lookup w (mapGetD m' u []) = if u = k1 ∧ w = k2 then some v else lookup w (mapGetD m u []) := by
+      (∀ u w, lookup w (mapGetD m' u []) = if u = k1 ∧ w = k2 then some v else lookup w (mapGetD m u [])) ∧
+      ((∀ u, ((mapGetD m u []).map Prod.fst).Nodup) → ∀ u, ((mapGetD m' u []).map Prod.fst).Nodup) := by
   unfold mapSet2 mapGet?
   cases hk : lookup k1 m with
   | none => simp [hk] at h
   | some inner =>
-    refine ⟨_, rfl, ?_, ?_⟩
+    refine ⟨_, rfl, ?_, ?_, ?_⟩
+    rotate_left 2
+    · intro hnd u
+      unfold mapGetD mapGet?
+      rw [lookup_mapSet]
+      by_cases hu : u = k1
+      · subst hu
+        simp only [if_true, Option.getD_some]
+        have := hnd u
+        unfold mapGetD mapGet? at this
+        rw [hk] at this
+        exact mapSet_keys_nodup inner k2 v this
+      · simp only [if_neg hu]
+        exact hnd u
     · intro u
       rw [lookup_mapSet]
       by_cases hu : u = k1
@@ -324,7 +388,7 @@ theorem rep_speed {g : Network α} {net : Net α} (hR : Rep geoOf g net) (speed 
   by_cases h : net.maxSpeed < speed
   · have h' : decide (speed > net.maxSpeed) = true := by simpa using h
     simp only [h, h', if_true]
-    exact ⟨hR.nodes, hR.nodeMap, hR.nbKeys, hR.nb, hR.maxID, hR.opt, rfl, hR.scale⟩
+    exact ⟨hR.nodes, hR.nodeMap, hR.nbKeys, hR.nb, hR.maxID, hR.opt, rfl, hR.scale, hR.nbNodup⟩
   · have h' : decide (speed > net.maxSpeed) = false := by simpa using h
     simp only [h, h', Bool.false_eq_true, if_false]
     exact hR
@@ -335,6 +399,7 @@ theorem rep_final {g5 : Network α} {net5 : Net α} (hR5 : Rep geoOf g5 net5) (g
     (k : ∀ u, (lookup u m2).isSome = (lookup u g5.neighbors).isSome)
     (s : ∀ u w, lookup w (mapGetD m2 u []) = if u = me.b ∧ w = me.a then some (some ge) else
       if u = me.a ∧ w = me.b then some (some ge) else lookup w (mapGetD g5.neighbors u []))
+    (nd : ∀ u, ((mapGetD m2 u []).map Prod.fst).Nodup)
     (hs : α) (edges' : List (Edge α)) :
     Rep geoOf { g5 with edges := edges', neighbors := m2, heuristicScale := hs }
       { net5 with edges := net5.edges ++ [me], hscale := hs } := by
@@ -367,6 +432,7 @@ theorem rep_final {g5 : Network α} {net5 : Net α} (hR5 : Rep geoOf g5 net5) (g
   · exact hR5.opt
   · exact hR5.speed
   · rfl
+  · exact nd
 
 /-- **`AddLink`** as regenerated returns, on related states, exactly what the model's `addLink` returns: the same
 outcome (new state related again; the empty-link index fault; the self-edge panic) -/
@@ -416,8 +482,8 @@ theorem tie_AddLink (C : Ctx α) (g : Network α) (net : Net α) (hR : Rep geoOf
       have hkb : (lookup b.id g5.neighbors).isSome = true := by
         rw [hR5.nbKeys, ← hnet5]; exact hasNode_addNode_self _ _
       generalize hge : ({ LineString := p0 :: r, start := some a, end_ := some b, length := C.geo.length (p0 :: r), speed := speed, time := C.geo.length (p0 :: r) / speed } : Edge α) = ge
-      obtain ⟨m1, em1, k1, s1⟩ := mapSet2_spec g5.neighbors a.id b.id (some ge) hka
-      obtain ⟨m2, em2, k2, s2⟩ := mapSet2_spec m1 b.id a.id (some ge) (by rw [k1]; exact hkb)
+      obtain ⟨m1, em1, k1, s1, n1⟩ := mapSet2_spec g5.neighbors a.id b.id (some ge) hka
+      obtain ⟨m2, em2, k2, s2, n2⟩ := mapSet2_spec m1 b.id a.id (some ge) (by rw [k1]; exact hkb)
       rw [if_neg (by simp)]
       simp only [em1, em2]
       refine ⟨_, rfl, ?_⟩
@@ -425,7 +491,7 @@ theorem tie_AddLink (C : Ctx α) (g : Network α) (net : Net α) (hR : Rep geoOf
         subst hge; simp [ERel, hgeo]
       have hfin := fun hs => rep_final hR5 ge ⟨i, a.id, b.id, C.geo.length (p0 :: r), speed, C.geo.length (p0 :: r) / speed⟩ hrel m2
         (fun u => by rw [k2, k1])
-        (fun u w => by rw [s2, s1]) hs (treeInsert g5.edges ge)
+        (fun u w => by rw [s2, s1]) (n2 (n1 hR5.nbNodup)) hs (treeInsert g5.edges ge)
       rw [hR5.scale]
       by_cases hc : 0 < C.geo.euclid a.p b.p ∧ C.geo.length (p0 :: r) / C.geo.euclid a.p b.p < net5.hscale
       · have hc' : (decide (C.geo.euclid a.p b.p > 0) &&
